@@ -114,6 +114,8 @@ struct DecState {
     int nfr_start = 0;
     int probe_id = -1;
     int n_queries = 0, n_calls = 0;
+    lattice_t *kept_dag = nullptr; // C11: our own reference to the last lattice handed out
+    int kept_frames = 0, kept_utt = -1, utt_serial = 0;
     bool probe_comparable = false;
     bool align_mid_utt = false; // an alignment was requested before the end of the current utterance
     bool sched_noncanonical = false;
@@ -723,6 +725,27 @@ struct Exec {
             bad("bestpath_maximal", best->path_scr < bestto[(size_t)L.end] ? "not_maximal" : "not_achievable",
                 "lattice_bestpath score " + std::to_string(best->path_scr) + ", best start-to-end path by independent DP " + std::to_string(bestto[(size_t)L.end]));
         out.events.i64(best ? best->path_scr : 0);
+        if (best) {
+            // the best path as a word string: the base spellings of the non-filler words along its links, read here
+            // through the public link/node fields and the dictionary
+            std::vector<std::string> ws;
+            dict_t *dd = s.d->dict;
+            auto word_of = [&](latnode_t *n) {
+                if (n && n->wid >= 0 && n->wid < dict_size(dd) && !dict_filler_word(dd, n->wid) && n->wid != dict_startwid(dd) && n->wid != dict_finishwid(dd))
+                    ws.push_back(base_of(dict_wordstr(dd, n->wid)));
+            };
+            word_of(best->to);
+            int guard = 0;
+            for (latlink_t *l = best; l && guard < 100000; l = l->best_prev, ++guard)
+                word_of(l->from);
+            std::string want;
+            for (size_t i = ws.size(); i-- > 0;)
+                want += (want.empty() ? "" : " ") + ws[i];
+            const char *hs = lattice_hyp(dag, best);
+            out.checks++;
+            if (!hs || want != hs)
+                bad("bestpath_words", "hyp_string", std::string("lattice_hyp of the best path is '") + (hs ? hs : "(null)") + "', its links spell '" + want + "'");
+        }
         int32 post = lattice_posterior(dag, ascale);
         out.events.i64(post);
         const int64_t eps = std::max<int64_t>(64, 4 * (int64_t)L.links.size());
@@ -1561,6 +1584,24 @@ struct Exec {
             out.checks++;
             if (again != dag)
                 viol("C11", "cache_identity", "second_request", "a second decoder_lattice() without new audio returned a different object", opi);
+            // ... also when the earlier request was made before decoder_end_utt and the end added no frame; the earlier
+            // object is kept alive by a reference of our own, so that a rebuilt lattice cannot land on its address.  The
+            // reference is sometimes carried into the next utterance (the documented way to keep a lattice).
+            if (profile == "C11" || profile == "C12") {
+                if (s.kept_dag && s.kept_utt == s.utt_serial && dag && dag->n_frames == s.kept_frames && dag != s.kept_dag)
+                    viol("C11", "cache_identity", "across_end_utt", "decoder_lattice() for the same " + std::to_string(dag->n_frames) +
+                             " frames of one utterance returned another object than before", opi);
+                if (s.kept_dag && (s.kept_utt != s.utt_serial || (dag && dag->n_frames != s.kept_frames))) {
+                    lattice_free(s.kept_dag);
+                    s.kept_dag = nullptr;
+                    out.probes["lat.retained_reference_released"]++;
+                }
+                if (!s.kept_dag && dag) {
+                    s.kept_dag = lattice_retain(dag);
+                    s.kept_frames = dag->n_frames;
+                    s.kept_utt = s.utt_serial;
+                }
+            }
             if (what == "nbest" && dag)
                 check_nbest(s, L, (int)op.geti("k", 5), op.getb("abandon"), opi);
             if (what == "post" && dag)
@@ -1799,6 +1840,7 @@ struct Exec {
                 // a probe is comparable with the fresh-decoder reference only from a defined normalisation state: set from
                 // text here, or a whole-utterance (batch) feed below; a minimised plan that lost both is not a probe any more
                 s.probe_comparable = op.has("cmn") && op["cmn"].t == Json::STR;
+                s.utt_serial++;
                 int rv = decoder_start_utt(s.d);
                 out.events.i64(rv);
                 s.in_utt = rv == 0;
